@@ -1,4 +1,5 @@
 // stopmc: property C25 (asynchronous stop never produces a wrong answer).
+// VERIF_VARIANTS: rel asan tsan
 // The only communication between the stopping thread and the solver is one flag read at CoreSMTSolver::okContinue,
 // which carries the scheduling point "poll" (OSMT_VERIF_SCHED).  A controlled scheduler runs the solver thread and a
 // REAL second thread that performs notifyStop() / notifyGlobalStop(); control is handed to the stopper exactly before
